@@ -26,6 +26,9 @@ type NodeOpts struct {
 	IP   string // loopback address the node listens on and dials from
 	Tree *chainlab.Tree
 	Tip  *chainlab.Node // branch the manager is preloaded with (must be chain-valid)
+	// PreTips are branches fed to the manager before Tip: the node has validated
+	// and stored them, but Tip (which must be sufficiently heavier) is its best chain
+	PreTips []*chainlab.Node
 	// Checkpoint, if set, must be a v2 ancestor of Tip above the require
 	// height: the store is initialised at it (NewDBStoreAtCheckpoint) and only
 	// the blocks above it are preloaded.
@@ -207,6 +210,11 @@ func NewNode(o NodeOpts) (*Node, error) {
 			return nil, err
 		}
 		cm = chain.NewManager(store, ts)
+	}
+	for _, pt := range o.PreTips {
+		if err = Preload(cm, base, pt); err != nil {
+			return nil, err
+		}
 	}
 	if err = Preload(cm, base, o.Tip); err != nil {
 		return nil, err
